@@ -37,6 +37,9 @@ def main():
         demo_cmd = demo_cmd.replace(f"/tmp/seed-{prop}", wt)
         demo_cmd = re.sub(r"cd\s+" + re.escape(wt) + r"\s*&&", "", demo_cmd)
         demo_cmd = re.sub(r"\s{2,}\(.*$", "", demo_cmd, flags=re.S)  # trailing explanatory text
+        demo_cmd = demo_cmd.replace("<worktree>", wt).replace("<checkout>", wt)
+        demo_cmd = re.sub(r"\bcp (demo[\w./]*)", lambda m: "cp " + src + "/" + m.group(1), demo_cmd)
+        demo_cmd = re.sub(r"cd\s+" + re.escape(wt) + r"\s*&&", "", demo_cmd)
         if os.environ.get("SEED_DEMO_CMD"):
             demo_cmd = os.environ["SEED_DEMO_CMD"].replace("{wt}", wt).replace("{src}", src)
         # demonstration without the change
